@@ -7,7 +7,7 @@ import "math/bits"
 func verifC17_go() {
 	maxL := vParam("maxL", 40)
 	minL := vParam("minL", 0)
-	L := vConcrete(vInt("L", minL, maxL))
+	L := minL + vChoose("L", maxL-minL+1)
 	key := vU32("key")
 	data := vBytes("b", L)
 	guard := vBytes("guard", 16)
@@ -25,4 +25,31 @@ func verifC17_go() {
 	vAssert(r == bits.RotateLeft32(key, -8*(L%4)), "C17.go.key")
 	vAssert(vAnd(vEqBytes(buf[:8], guard[:8]), vEqBytes(buf[8+L:], guard[8:])), "C17.go.guard")
 	vObserve("masked", buf[8:8+L], r)
+}
+
+// C17.compose: masking a buffer piece-wise with the carried key equals masking it whole,
+// for symbolic split points (two cuts => up to three pieces).
+func verifC17_compose() {
+	maxL := vParam("maxL", 24)
+	L := vChoose("L", maxL+1)
+	key := vU32("key")
+	data := vBytes("b", L)
+	c1 := vChoose("cut1", L+1)
+	c2 := c1 + vChoose("cut2", L-c1+1)
+	whole := append([]byte{}, data...)
+	rw := mask(whole, key)
+	parts := append([]byte{}, data...)
+	k := mask(parts[:c1], key)
+	k = mask(parts[c1:c2], k)
+	k = mask(parts[c2:], k)
+	vReach("C17.compose.done")
+	vAssert(vEqBytes(whole, parts), "C17.compose.bytes")
+	vAssert(rw == k, "C17.compose.key")
+	ref := true
+	for i := 0; i < L; i++ {
+		ref = vAnd(ref, parts[i] == data[i]^byte(key>>(8*uint(i%4))))
+	}
+	vAssert(ref, "C17.sel.bytes")
+	vAssert(k == bits.RotateLeft32(key, -8*(L%4)), "C17.sel.key")
+	vObserve("composed", parts, k)
 }
